@@ -181,7 +181,7 @@ def model_expr(ops):
 def run(tier, seed, replay=None):
     assert_repo_import()
     chk = Check("C09", tier, seed)
-    model_ok = chk.proof_stage(["Fs/Cache.vo", "Fs/FsProofs.vo", "Report/JsonProofs.vo"])
+    model_ok = chk.proof_stage(["Fs/Cache.vo", "Fs/FsProofs.vo", "Report/JsonProofs.vo", "Scope/TieProofs.vo"])
     alpha = op_alphabet()
     prefix = [("write", "a.py", 2), ("write", "d/b.js", 16), ("write", "d/c.py", 2), ("scan",)]
     histories = []
